@@ -46,7 +46,7 @@ static void vf_grid_bytes(const char *name, unsigned char *dst, size_t n) {
 #define VF_IS_NATIVE 1
 /* run one case: VF_GRID_RUN(entry) after filling vf_grid_tab / vf_grid_n */
 #define VF_GRID_RUN(entry) do { vf_grid_skipped = 0; if(!setjmp(vf_grid_jmp)) { entry(); } if(!vf_grid_skipped) vf_grid_evaluated++; } while(0)
-#define VF_GRID_SUMMARY() (printf("%s%s%sVF-GRID: evaluated %llu failed %llu\n", vf_grid_failed ? "VF-GRID: FAIL " : "", vf_grid_failed ? vf_grid_first : "", vf_grid_failed ? "\n" : "", vf_grid_evaluated, vf_grid_failed), vf_grid_failed ? 1 : 0)
+#define VF_GRID_SUMMARY() (printf("%s%s%sVF-GRID: evaluated %llu failed %llu\n", vf_grid_failed ? "VF-GRID: FAIL " : "", vf_grid_failed ? vf_grid_first : "", vf_grid_failed ? "\n" : "", vf_grid_evaluated, vf_grid_failed), fflush(stdout), vf_grid_failed ? 1 : 0)
 #elif defined(VF_NATIVE)
 #include <stdio.h>
 static int vf_failed;
